@@ -259,7 +259,7 @@ impl Check for C08 {
     fn run_shard(&self, ctx: &Ctx, rec: &mut Rec) {
         let total = match ctx.tier {
             Tier::Quick => 9000,
-            Tier::Thorough => 40000,
+            Tier::Thorough => 200000,
         };
         prop_loop(ctx, rec, "gen", strategy(), ctx.share(total), judge);
     }
